@@ -262,36 +262,48 @@ func run(c vrt.Case) vrt.Obs {
 		}
 		o.Sample = map[string]any{"kind": "random", "first_pair": first}
 	case "course":
-		for d := 0; d <= 360; d++ {
-			for _, mag := range []bool{false, true} {
-				o.Evals++
-				vrt.Guard(&o, func() {
-					cr, err := catalog.NewCourse(d, mag)
-					if err != nil || cr == nil {
-						o.Violate("course-error", "NewCourse(%d,%v) failed: %v", d, mag, err)
-						return
-					}
-					lines, _, ok := bodyLines(&o, catalog.PosReport{Date: date, Course: cr})
-					if !ok {
-						return
-					}
-					got := lines["COURSE"]
-					if len(got) != 1 {
-						o.Violate("course-line", "course %d: COURSE lines %v", d, got)
-						return
-					}
-					o.Count("course_lines_parsed", 1)
-					m := courseRe.FindStringSubmatch(got[0])
-					if m == nil || got[0] != cr.String() {
-						o.Violate("course-format", "NewCourse(%d,%v) prints %q (String()=%q): not three digits plus T/M", d, mag, got[0], cr.String())
-						return
-					}
-					n, _ := strconv.Atoi(m[1])
-					if n != d%360 || (m[2] == "M") != mag {
-						o.Violate("course-value", "NewCourse(%d,%v) prints %q", d, mag, got[0])
-					}
-					o.Sig("course %s", got[0])
-				})
+		// the sweep runs twice; after a course value has been checked the caller scribbles on it (its fields are
+		// exported and the value is the caller's own): what one caller does to its value must not show in the
+		// course any later call hands out
+		for pass := 0; pass < 2; pass++ {
+			for d := 0; d <= 360; d++ {
+				for _, mag := range []bool{false, true} {
+					o.Evals++
+					vrt.Guard(&o, func() {
+						cr, err := catalog.NewCourse(d, mag)
+						defer func() {
+							if cr != nil {
+								cr.Magnetic = !cr.Magnetic
+								cr.Digits = [3]byte{'7', '7', '7'}
+								o.Count("course_values_edited_by_their_owner_afterwards", 1)
+							}
+						}()
+						if err != nil || cr == nil {
+							o.Violate("course-error", "NewCourse(%d,%v) failed: %v", d, mag, err)
+							return
+						}
+						lines, _, ok := bodyLines(&o, catalog.PosReport{Date: date, Course: cr})
+						if !ok {
+							return
+						}
+						got := lines["COURSE"]
+						if len(got) != 1 {
+							o.Violate("course-line", "course %d: COURSE lines %v", d, got)
+							return
+						}
+						o.Count("course_lines_parsed", 1)
+						m := courseRe.FindStringSubmatch(got[0])
+						if m == nil || got[0] != cr.String() {
+							o.Violate("course-format", "NewCourse(%d,%v) prints %q (String()=%q): not three digits plus T/M", d, mag, got[0], cr.String())
+							return
+						}
+						n, _ := strconv.Atoi(m[1])
+						if n != d%360 || (m[2] == "M") != mag {
+							o.Violate("course-value", "NewCourse(%d,%v) prints %q", d, mag, got[0])
+						}
+						o.Sig("course %s", got[0])
+					})
+				}
 			}
 		}
 		for _, d := range []int{-1, 361, 1000, math.MinInt32} {
@@ -306,7 +318,11 @@ func run(c vrt.Case) vrt.Obs {
 	case "optional":
 		r := vrt.Rand(p.Seed, "c20opt")
 		for rep := 0; rep < 50; rep++ {
-			for mask := 0; mask < 16; mask++ {
+			for mask := 0; mask < 48; mask++ {
+				// bits 4,5 (with bit 0 clear): only the latitude / only the longitude is given
+				if mask >= 16 && mask&1 != 0 {
+					continue
+				}
 				o.Evals++
 				var pr catalog.PosReport
 				pr.Date = date.Add(time.Duration(r.Intn(1e6)) * time.Minute)
@@ -320,6 +336,12 @@ func run(c vrt.Case) vrt.Obs {
 				}
 				if mask&1 != 0 {
 					pr.Lat, pr.Lon = &lat, &lon
+				}
+				if mask&16 != 0 {
+					pr.Lat = &lat
+				}
+				if mask&32 != 0 {
+					pr.Lon = &lon
 				}
 				if mask&2 != 0 {
 					pr.Speed = &speed
@@ -339,14 +361,30 @@ func run(c vrt.Case) vrt.Obs {
 					if !ok {
 						return
 					}
-					want := map[string]bool{"DATE": true, "LATITUDE": mask&1 != 0, "LONGITUDE": mask&1 != 0, "SPEED": mask&2 != 0, "COURSE": mask&4 != 0, "COMMENT": mask&8 != 0}
+					both := mask&1 != 0 || mask&48 == 48
+					want := map[string]bool{"DATE": true, "LATITUDE": both, "LONGITUDE": both, "SPEED": mask&2 != 0, "COURSE": mask&4 != 0, "COMMENT": mask&8 != 0}
+					if !both && mask&48 != 0 {
+						// half a position: a coordinate that was not given must not be stated (whether the one that
+						// was given is printed alone is left open: a position needs both)
+						o.Count("half_set_positions_checked", 1)
+						if pr.Lat == nil && len(lines["LATITUDE"]) != 0 || pr.Lon == nil && len(lines["LONGITUDE"]) != 0 {
+							o.Violate("optional-line", "fields mask %06b: a coordinate that was not set is stated; body %q", mask, body)
+						}
+						for _, k := range []string{"LATITUDE", "LONGITUDE"} {
+							if len(lines[k]) > 1 {
+								o.Violate("optional-line", "fields mask %06b: line %s present %d times; body %q", mask, k, len(lines[k]), body)
+							}
+						}
+						delete(want, "LATITUDE")
+						delete(want, "LONGITUDE")
+					}
 					for k, w := range want {
 						if (len(lines[k]) == 1) != w || len(lines[k]) > 1 {
 							o.Violate("optional-line", "fields mask %04b: line %s present %d times; body %q", mask, k, len(lines[k]), body)
 						}
 					}
 					for k := range lines {
-						if _, known := want[k]; !known {
+						if _, known := want[k]; !known && k != "LATITUDE" && k != "LONGITUDE" {
 							o.Violate("unknown-line", "unexpected line %q in body %q", k, body)
 						}
 					}
@@ -362,7 +400,7 @@ func run(c vrt.Case) vrt.Obs {
 						o.Violate("comment-line", "COMMENT %q for %q", cm[0], pr.Comment)
 					}
 					o.Count("optional_combinations_checked", 1)
-					o.Sig("opt %04b %s", mask, body)
+					o.Sig("opt %06b %s", mask, body)
 				})
 			}
 		}
